@@ -40,6 +40,18 @@ def equations(cfg, rng, n):
     for i, s in enumerate(corp):
         if cfg.mine(i):
             yield "corpus", s, []
+    # every guaranteed arm / edge / near-miss text as ONE SIDE of an equation whose other side is a
+    # fresh variable: 'rewriting inside one side' for every rule arm, with a witness for free
+    # (the equation is affine in the fresh variable)
+    k = 0
+    for t in RC.ARM_TEXTS + RC.EDGE_TEXTS + [v for a in RC.ARM_TEXTS for v in WE.substituted(a)]:
+        if "=" in t:
+            continue
+        k += 1
+        if not cfg.mine(k):
+            continue
+        fresh = next(ch for ch in "wktmhjrvdl" if ch not in t)
+        yield "side-of-equation", (f"{t} = {fresh}" if k % 2 else f"{fresh} = {t}"), []
     for i in range(n):
         c = rng.random()
         if c < 0.6:
@@ -91,7 +103,7 @@ def run(rec, cfg):
     MR.attach_apply()
     rng = cfg.rng("c02")
     rules = MR.rule_instances()
-    n = cfg.scale(110, 40000)
+    n = cfg.scale(60, 40000)
     for src, text, hints in equations(cfg, rng, n):
         if cfg.out_of_time():
             rec.truncated = True
